@@ -278,6 +278,8 @@ impl<'a> Ingestion<'a> {
         // Acquire locks for version registration. We must hold both the
         // compaction state lock and version history lock to safely modify
         // the tree's version.
+        #[cfg(feature = "verif_hooks")]
+        crate::verif::wait_until("vh:blocked", || crate::verif::can_write(&self.tree.version_history));
         #[expect(clippy::expect_used, reason = "lock is expected to not be poisoned")]
         let mut _compaction_state = self.tree.compaction_state.lock().expect("lock is poisoned");
 
